@@ -152,6 +152,65 @@ theorem keyReferenced_of_referenced {st : Store} {d : Digest} (h : st.referenced
   obtain ⟨n, m, hm, l, hl, he⟩ := referenced_iff.mp h
   exact keyReferenced_iff.mpr ⟨n, m, hm, l, hl, by rw [he]⟩
 
+/-! ## the guard: nothing when F16a is repaired, colon spelling on the pinned tree -/
+
+/-- digest `d` may meet `Layer.Remove`: any digest once F16a is repaired, only `sha256:` before -/
+def GD (env : Env) (d : Digest) : Prop := env.v.fixAlias = true ∨ d.form = .colon
+
+/-- the guard of the invariant theorems: none once F16a is repaired, `Canonical st` on the pinned tree -/
+def Guard (env : Env) (st : Store) : Prop := env.v.fixAlias = true ∨ Canonical st
+
+theorem Guard.gd {env : Env} {st : Store} (hg : Guard env st) {n : Name} {m : Manifest}
+    (hm : st.man n = some (.readable m)) {l : Layer} (hl : l ∈ m.all) : GD env l.digest := by
+  rcases hg with h | h
+  · exact Or.inl h
+  · exact Or.inr (h n m hm l hl)
+
+theorem key_of_inUse {env : Env} {st : Store} {d : Digest} (h : env.inUse st d = true) :
+    st.keyReferenced d.key = true := by
+  unfold Env.inUse at h
+  split at h
+  · exact h
+  · exact keyReferenced_of_referenced h
+
+theorem inUse_of_referenced {env : Env} {st : Store} {d : Digest} (h : st.referenced d = true) :
+    env.inUse st d = true := by
+  unfold Env.inUse
+  split
+  · exact keyReferenced_of_referenced h
+  · exact h
+
+theorem inUse_of_key {env : Env} {st : Store} (hg : Guard env st) {d : Digest} (hd : GD env d)
+    (h : st.keyReferenced d.key = true) : env.inUse st d = true := by
+  unfold Env.inUse
+  split
+  · exact h
+  · rename_i hf
+    rcases hg with hg | hg
+    · exact absurd hg hf
+    · rcases hd with hd | hd
+      · exact absurd hd hf
+      · exact hg.referenced_of_key hd h
+
+theorem recorded_key (env : Env) (d : Digest) : (env.recorded d).key = d.key := by
+  unfold Env.recorded; split <;> rfl
+
+theorem recorded_hex (env : Env) (d : Digest) : (env.recorded d).hex = d.hex := by
+  unfold Env.recorded; split <;> rfl
+
+theorem GD_recorded {env : Env} {d : Digest} (h : GD env d) : GD env (env.recorded d) := by
+  unfold Env.recorded
+  split
+  · rename_i hf; exact Or.inl hf
+  · exact h
+
+theorem inUse_recorded {env : Env} {st : Store} {d : Digest} (h : st.referenced d = true) :
+    env.inUse st (env.recorded d) = true := by
+  unfold Env.inUse Env.recorded
+  split
+  · exact (keyReferenced_of_referenced h : st.keyReferenced d.key = true)
+  · exact h
+
 /-- blobs change only where no readable manifest points (or where nothing was), and what appears is
     correctly named; manifests do not change -/
 structure BlobStep (env : Env) (st st' : Store) : Prop where
@@ -218,6 +277,13 @@ theorem BlobStep.canonical {env : Env} {st st' : Store} (h : BlobStep env st st'
   rw [man_congr h.mans] at hm
   exact hc n m hm
 
+theorem BlobStep.guard {env : Env} {st st' : Store} (h : BlobStep env st st') (hg : Guard env st) :
+    Guard env st' := hg.imp id h.canonical
+
+theorem inUse_congr {env : Env} {st st' : Store} (h : st'.mans = st.mans) (d : Digest) :
+    env.inUse st' d = env.inUse st d := by
+  unfold Env.inUse; rw [keyReferenced_congr h, referenced_congr h]
+
 
 /-! ## primitive effects -/
 
@@ -225,12 +291,12 @@ theorem blob_adel (st : Store) (k k' : String) :
     (Store.blob { st with blobs := adel st.blobs k } k') = if k' = k then none else st.blob k' := by
   unfold Store.blob; exact aget_adel _ _ _
 
-theorem layerRemove_step (env : Env) {st : Store} (hc : Canonical st) {d : Digest} (hd : d.form = .colon) :
-    BlobStep env st (layerRemove st d) := by
+theorem layerRemove_step (env : Env) {st : Store} (hg : Guard env st) {d : Digest} (hd : GD env d) :
+    BlobStep env st (layerRemove env st d) := by
   unfold layerRemove
-  by_cases hr : st.referenced d = true
+  by_cases hr : env.inUse st d = true
   · simp only [hr, if_true]; exact BlobStep.refl env st
-  · have hr' : st.referenced d = false := by cases h : st.referenced d <;> simp_all
+  · have hr' : env.inUse st d = false := by cases h : env.inUse st d <;> simp_all
     simp only [hr', Bool.false_eq_true, if_false]
     refine ⟨rfl, fun k => ?_⟩
     rw [blob_adel]
@@ -239,26 +305,27 @@ theorem layerRemove_step (env : Env) {st : Store} (hc : Canonical st) {d : Diges
       refine Or.inr ⟨Or.inl ?_, by simp⟩
       cases hkr : st.keyReferenced d.key with
       | false => rfl
-      | true => exact absurd (hc.referenced_of_key hd hkr) hr
+      | true => exact absurd (inUse_of_key hg hd hkr) hr
     · simp [hk]
 
-theorem removeLayers_step (env : Env) (ls : List Layer) {st : Store} (hc : Canonical st)
-    (hd : ∀ l ∈ ls, l.digest.form = .colon) :
-    BlobStep env st (removeLayers st ls) := by
+theorem removeLayers_step (env : Env) (ls : List Layer) {st : Store} (hg : Guard env st)
+    (hd : ∀ l ∈ ls, GD env l.digest) :
+    BlobStep env st (removeLayers env st ls) := by
   induction ls generalizing st with
   | nil => exact BlobStep.refl env st
   | cons l t ih =>
     unfold removeLayers
     simp only [List.foldl]
-    have h1 := layerRemove_step env hc (hd l (by simp))
-    have := ih (st := layerRemove st l.digest) (h1.canonical hc) (fun x hx => hd x (by simp [hx]))
+    have h1 := layerRemove_step env hg (hd l (by simp))
+    have := ih (st := layerRemove env st l.digest) (h1.guard hg) (fun x hx => hd x (by simp [hx]))
     exact h1.trans this
 
-theorem layerRemove_noop {st : Store} {d : Digest} (h : st.referenced d = true) : layerRemove st d = st := by
+theorem layerRemove_noop {env : Env} {st : Store} {d : Digest} (h : env.inUse st d = true) :
+    layerRemove env st d = st := by
   unfold layerRemove; simp [h]
 
-theorem removeLayers_noop (ls : List Layer) {st : Store} (h : ∀ l ∈ ls, st.referenced l.digest = true) :
-    removeLayers st ls = st := by
+theorem removeLayers_noop {env : Env} (ls : List Layer) {st : Store} (h : ∀ l ∈ ls, env.inUse st l.digest = true) :
+    removeLayers env st ls = st := by
   induction ls with
   | nil => rfl
   | cons l t ih =>
@@ -350,6 +417,17 @@ theorem setManifest_canonical {st : Store} (hc : Canonical st) (n : Name) (f : M
   · simp only [h, if_false] at hm
     exact hc n' m hm
 
+theorem Guard.setManifest {env : Env} {st : Store} (hg : Guard env st) (n : Name) (f : MFile)
+    (hf : ∀ m, f = .readable m → ∀ l ∈ m.all, GD env l.digest) : Guard env (setManifest st n f) := by
+  rcases hg with h | h
+  · exact Or.inl h
+  · by_cases hv : env.v.fixAlias = true
+    · exact Or.inl hv
+    · refine Or.inr (setManifest_canonical h n f (fun m e l hl => ?_))
+      rcases hf m e l hl with h' | h'
+      · exact absurd h' hv
+      · exact h'
+
 theorem delManifest_nameInv {env : Env} {st : Store} (hi : NameInv env st) (n : Name) :
     NameInv env (delManifest st n) := by
   intro n' m hm l hl
@@ -366,6 +444,9 @@ theorem delManifest_canonical {st : Store} (hc : Canonical st) (n : Name) : Cano
   · simp [h] at hm
   · simp only [h, if_false] at hm
     exact hc n' m hm
+
+theorem Guard.delManifest {env : Env} {st : Store} (hg : Guard env st) (n : Name) :
+    Guard env (delManifest st n) := hg.imp id (fun h => delManifest_canonical h n)
 
 /-! ## createModel -/
 
@@ -398,11 +479,11 @@ theorem newLayer_complete {env : Env} (hinj : HashInj env) {st : Store} (hb : Bl
 /-- working-list invariant of `createModel` -/
 structure WL (env : Env) (st : Store) (ls : List Layer) (μs : Media → Prop) : Prop where
   complete : ∀ l ∈ ls, Complete env st l
-  colon : ∀ l ∈ ls, l.digest.form = .colon
-  ref : ∀ l ∈ ls, μs l.media → st.referenced l.digest = true
+  gd : ∀ l ∈ ls, GD env l.digest
+  ref : ∀ l ∈ ls, μs l.media → env.inUse st l.digest = true
 
 theorem replaceLayer_fst (env : Env) (st : Store) (ls : List Layer) (media : Media) (c : Bytes)
-    (href : ∀ l ∈ ls, l.media = media → st.referenced l.digest = true) :
+    (href : ∀ l ∈ ls, l.media = media → env.inUse st l.digest = true) :
     (replaceLayer env st ls media c).1 = putBlob env st c := by
   unfold replaceLayer newLayer
   simp only
@@ -433,18 +514,18 @@ theorem replaceLayer_WL {env : Env} (hinj : HashInj env) {st : Store} {ls : List
   · intro l hl
     simp only [List.mem_append, List.mem_filter, List.mem_singleton] at hl
     rcases hl with hl | hl
-    · exact w.colon l hl.1
-    · subst hl; rfl
+    · exact w.gd l hl.1
+    · subst hl; exact Or.inr rfl
   · intro l hl hm
     simp only [List.mem_append, List.mem_filter, List.mem_singleton] at hl
-    rw [referenced_congr (putBlob_mans env st c)]
+    rw [inUse_congr (putBlob_mans env st c)]
     rcases hl with hl | hl
     · exact w.ref l hl.1 hm.1
     · subst hl; exact absurd rfl hm.2
 
 theorem WL.weaken {env : Env} {st : Store} {ls : List Layer} {μs μs' : Media → Prop} (w : WL env st ls μs)
     (h : ∀ x, μs' x → μs x) : WL env st ls μs' :=
-  ⟨w.complete, w.colon, fun l hl hm => w.ref l hl (h _ hm)⟩
+  ⟨w.complete, w.gd, fun l hl hm => w.ref l hl (h _ hm)⟩
 
 theorem stepTemplate_spec {env : Env} (hinj : HashInj env) {st : Store} {ls : List Layer} {μs : Media → Prop}
     (hb : BlobsOk env st) (w : WL env st ls μs) (hμ : μs .template) (t : Option (Bytes × Bool)) :
@@ -507,8 +588,8 @@ theorem createModel_spec {env : Env} (hinj : HashInj env) {st : Store} (name : N
     (w : WL env st (base.map (·.1)) (fun x => x = .template ∨ x = .system ∨ x = .params)) :
     ∃ st0, BlobStep env st st0 ∧
       (((createModel env st name base r).1 = st0 ∧ (createModel env st name base r).2.isSome = true) ∨
-       (∃ m, (createModel env st name base r) = (setManifest st0 name (.readable m), none) ∧ CanonM m ∧
-          ∀ l ∈ m.all, Complete env st0 l)) := by
+       (∃ m, (createModel env st name base r) = (setManifest st0 name (.readable m), none) ∧
+          (∀ l ∈ m.all, GD env l.digest) ∧ ∀ l ∈ m.all, Complete env st0 l)) := by
   unfold createModel
   simp only
   obtain ⟨s1, w1⟩ := stepTemplate_spec hinj hb w (Or.inl rfl) r.template
@@ -545,8 +626,8 @@ theorem createModel_spec {env : Env} (hinj : HashInj env) {st : Store} (name : N
             · intro l hl
               simp only [Manifest.all, List.mem_append, List.mem_singleton] at hl
               rcases hl with hl | hl
-              · exact w3.colon l hl
-              · subst hl; rfl
+              · exact w3.gd l hl
+              · subst hl; exact Or.inr rfl
             · intro l hl
               simp only [Manifest.all, List.mem_append, List.mem_singleton] at hl
               rcases hl with hl | hl
@@ -558,7 +639,7 @@ theorem createModel_spec {env : Env} (hinj : HashInj env) {st : Store} (name : N
 def μ3 : Media → Prop := fun x => x = .template ∨ x = .system ∨ x = .params
 
 theorem fromLayers_WL {env : Env} {st : Store} (hb : BlobsOk env st) (ls : List Layer)
-    (hcol : ∀ l ∈ ls, l.digest.form = .colon) (href : ∀ l ∈ ls, st.referenced l.digest = true) :
+    (hcol : ∀ l ∈ ls, GD env l.digest) (href : ∀ l ∈ ls, st.referenced l.digest = true) :
     ∀ b, fromLayers env st ls = some b → WL env st (b.map (·.1)) μ3 := by
   induction ls with
   | nil =>
@@ -574,9 +655,10 @@ theorem fromLayers_WL {env : Env} {st : Store} (hb : BlobsOk env st) (ls : List 
     | none => simp [hc] at h
     | some c =>
       simp only [hc] at h
-      have hl' : Complete env st ⟨l.media, l.digest, c.length⟩ := ⟨c, hc, rfl, hb _ _ hc⟩
+      have hl' : Complete env st ⟨l.media, env.recorded l.digest, c.length⟩ :=
+        ⟨c, by simpa [recorded_key] using hc, rfl, by rw [recorded_hex]; exact hb _ _ hc⟩
       have key : ∀ (mt : Option Meta) (r : List (Layer × Option Meta)), fromLayers env st t = some r →
-          WL env st (((⟨l.media, l.digest, c.length⟩, mt) :: r).map (·.1)) μ3 := by
+          WL env st (((⟨l.media, env.recorded l.digest, c.length⟩, mt) :: r).map (·.1)) μ3 := by
         intro mt r hr
         have w := iht r hr
         refine ⟨?_, ?_, ?_⟩
@@ -588,12 +670,12 @@ theorem fromLayers_WL {env : Env} {st : Store} (hb : BlobsOk env st) (ls : List 
         · intro x hx
           simp only [List.map_cons, List.mem_cons] at hx
           rcases hx with hx | hx
-          · subst hx; exact hcol l (by simp)
-          · exact w.colon x hx
+          · subst hx; exact GD_recorded (hcol l (by simp))
+          · exact w.gd x hx
         · intro x hx hm
           simp only [List.map_cons, List.mem_cons] at hx
           rcases hx with hx | hx
-          · subst hx; exact href l (by simp)
+          · subst hx; exact inUse_recorded (href l (by simp))
           · exact w.ref x hx hm
       split at h
       · cases hg : env.gguf c with
@@ -614,7 +696,7 @@ theorem fromLayers_WL {env : Env} {st : Store} (hb : BlobsOk env st) (ls : List 
           exact key _ r hr
 
 theorem fileLayers_WL {env : Env} {st : Store} (hb : BlobsOk env st) (ds : List Digest)
-    (hcol : ∀ d ∈ ds, d.form = .colon) :
+    (hcol : ∀ d ∈ ds, GD env d) :
     ∀ b, fileLayers env st ds = .ok b → WL env st (b.map (·.1)) μ3 := by
   induction ds with
   | nil =>
@@ -644,13 +726,14 @@ theorem fileLayers_WL {env : Env} {st : Store} (hb : BlobsOk env st) (ds : List 
           · intro x hx
             simp only [List.map_cons, List.mem_cons] at hx
             rcases hx with hx | hx
-            · subst hx; exact ⟨c, hc, rfl, hb _ _ hc⟩
+            · subst hx
+              exact ⟨c, by simpa [recorded_key] using hc, rfl, by rw [recorded_hex]; exact hb _ _ hc⟩
             · exact w.complete x hx
           · intro x hx
             simp only [List.map_cons, List.mem_cons] at hx
             rcases hx with hx | hx
-            · subst hx; exact hcol d (by simp)
-            · exact w.colon x hx
+            · subst hx; exact GD_recorded (hcol d (by simp))
+            · exact w.gd x hx
           · intro x hx hm
             simp only [List.map_cons, List.mem_cons] at hx
             rcases hx with hx | hx
@@ -661,30 +744,36 @@ theorem fileLayers_WL {env : Env} {st : Store} (hb : BlobsOk env st) (ds : List 
 theorem WL.nil (env : Env) (st : Store) (μs : Media → Prop) : WL env st [] μs :=
   ⟨by simp, by simp, by simp⟩
 
-theorem baseLayers_WL {env : Env} {st : Store} (hc : Canonical st) (hb : BlobsOk env st) (r : CreateReq)
-    (hf : ∀ d ∈ r.files, d.form = .colon) (frev : Bool) :
+theorem baseLayers_WL {env : Env} {st : Store} (hc : Guard env st) (hb : BlobsOk env st) (r : CreateReq)
+    (hf : ∀ d ∈ r.files, GD env d) (frev : Bool) :
     ∀ b, (baseLayers env st r frev).1 = some b → WL env st (b.map (·.1)) μ3 := by
   intro b h
   unfold baseLayers at h
+  have onErr : ∀ b, (if env.v.fixReturn = true then (none : Option (List (Layer × Option Meta))) else some []) = some b →
+      WL env st (b.map (·.1)) μ3 := by
+    intro b h
+    split at h
+    · cases h
+    · injection h with e; subst e; exact WL.nil _ _ _
   cases hs : r.src with
   | some f =>
     simp only [hs] at h
     cases hm : st.readableAt f with
     | none =>
       simp only [hm] at h
-      injection h with e; subst e; exact WL.nil _ _ _
+      exact onErr b h
     | some m =>
       simp only [hm] at h
       have hm' := readableAt_eq_some.mp hm
       cases hfl : fromLayers env st m.layers with
       | none =>
         simp only [hfl] at h
-        injection h with e; subst e; exact WL.nil _ _ _
+        exact onErr b h
       | some b' =>
         simp only [hfl] at h
         injection h with e; subst e
         refine fromLayers_WL hb m.layers ?_ ?_ b' hfl
-        · intro l hl; exact hc f m hm' l (by simp [Manifest.all, hl])
+        · intro l hl; exact hc.gd hm' (by simp [Manifest.all, hl])
         · intro l hl
           exact referenced_iff.mpr ⟨f, m, hm', l, by simp [Manifest.all, hl], rfl⟩
   | none =>
@@ -708,18 +797,18 @@ theorem baseLayers_WL {env : Env} {st : Store} (hc : Canonical st) (hb : BlobsOk
 structure Good (env : Env) (st st' : Store) (T : List Name) : Prop where
   blobsOk : BlobsOk env st'
   nameInv : NameInv env st → NameInv env st'
-  canon : Canonical st'
+  canon : Guard env st'
   frameMan : ∀ n, n ∉ T → st'.man n = st.man n
   frameBlob : ∀ n m, n ∉ T → st.man n = some (.readable m) → ∀ l ∈ m.all, ∀ c,
     st.blob l.digest.key = some c → st'.blob l.digest.key = some c
 
-theorem Good.refl {env : Env} {st : Store} (hb : BlobsOk env st) (hc : Canonical st) (T : List Name) :
+theorem Good.refl {env : Env} {st : Store} (hb : BlobsOk env st) (hc : Guard env st) (T : List Name) :
     Good env st st T :=
   ⟨hb, id, hc, fun _ _ => rfl, fun _ _ _ _ _ _ _ h => h⟩
 
 theorem Good.ofBlobStep {env : Env} {st st' : Store} (h : BlobStep env st st') (hb : BlobsOk env st)
-    (hc : Canonical st) (T : List Name) : Good env st st' T :=
-  ⟨h.blobsOk hb, h.nameInv, h.canonical hc, fun n _ => man_congr h.mans n,
+    (hc : Guard env st) (T : List Name) : Good env st st' T :=
+  ⟨h.blobsOk hb, h.nameInv, h.guard hc, fun n _ => man_congr h.mans n,
    fun _ _ _ hm _ hl _ hc' => h.keep hm hl hc'⟩
 
 theorem Good.trans {env : Env} {a b c : Store} {T : List Name} (h1 : Good env a b T) (h2 : Good env b c T) :
@@ -734,20 +823,20 @@ theorem Good.mono {env : Env} {st st' : Store} {T T' : List Name} (h : Good env 
   ⟨h.blobsOk, h.nameInv, h.canon, fun n hn => h.frameMan n (fun h' => hn (hT n h')),
    fun n m hn => h.frameBlob n m (fun h' => hn (hT n h'))⟩
 
-theorem Good.setManifest {env : Env} {st : Store} (hb : BlobsOk env st) (hc : Canonical st) (n : Name)
-    (f : MFile) (hf : ∀ m, f = .readable m → CanonM m ∧ ∀ l ∈ m.all, Complete env st l) :
+theorem Good.setManifest {env : Env} {st : Store} (hb : BlobsOk env st) (hc : Guard env st) (n : Name)
+    (f : MFile) (hf : ∀ m, f = .readable m → (∀ l ∈ m.all, GD env l.digest) ∧ ∀ l ∈ m.all, Complete env st l) :
     Good env st (setManifest st n f) [n] := by
   refine ⟨hb, fun hi => setManifest_nameInv hi n f (fun m e => (hf m e).2),
-    setManifest_canonical hc n f (fun m e => (hf m e).1), ?_, ?_⟩
+    hc.setManifest n f (fun m e => (hf m e).1), ?_, ?_⟩
   · intro n' hn'
     rw [setManifest_man]
     simp only [List.mem_singleton] at hn'
     simp [hn']
   · intro _ _ _ _ _ _ c h; exact h
 
-theorem Good.delManifest {env : Env} {st : Store} (hb : BlobsOk env st) (hc : Canonical st) (n : Name) :
+theorem Good.delManifest {env : Env} {st : Store} (hb : BlobsOk env st) (hc : Guard env st) (n : Name) :
     Good env st (delManifest st n) [n] := by
-  refine ⟨hb, fun hi => delManifest_nameInv hi n, delManifest_canonical hc n, ?_, ?_⟩
+  refine ⟨hb, fun hi => delManifest_nameInv hi n, hc.delManifest n, ?_, ?_⟩
   · intro n' hn'
     rw [delManifest_man]
     simp only [List.mem_singleton] at hn'
@@ -756,8 +845,8 @@ theorem Good.delManifest {env : Env} {st : Store} (hb : BlobsOk env st) (hc : Ca
 
 /-! ## the operations -/
 
-theorem deleteAt_good {env : Env} {st : Store} (hb : BlobsOk env st) (hc : Canonical st) (t : Name) :
-    Good env st (deleteAt st t).1 [t] := by
+theorem deleteAt_good {env : Env} {st : Store} (hb : BlobsOk env st) (hc : Guard env st) (t : Name) :
+    Good env st (deleteAt env st t).1 [t] := by
   unfold deleteAt
   cases hm : st.man t with
   | none => exact Good.refl hb hc _
@@ -767,10 +856,10 @@ theorem deleteAt_good {env : Env} {st : Store} (hb : BlobsOk env st) (hc : Canon
     | readable m =>
       simp only
       have g1 := Good.delManifest hb hc t
-      have hcm : CanonM m := hc t m hm
+      have hcm : ∀ l ∈ m.all, GD env l.digest := fun l hl => hc.gd hm hl
       exact g1.trans (Good.ofBlobStep (removeLayers_step env m.all g1.canon hcm) g1.blobsOk g1.canon _)
 
-theorem copyAt_good {env : Env} {st : Store} (hb : BlobsOk env st) (hc : Canonical st) (hi : NameInv env st)
+theorem copyAt_good {env : Env} {st : Store} (hb : BlobsOk env st) (hc : Guard env st) (hi : NameInv env st)
     (s d : Name) : Good env st (copyAt st s d).1 [d] := by
   unfold copyAt
   split
@@ -779,49 +868,51 @@ theorem copyAt_good {env : Env} {st : Store} (hb : BlobsOk env st) (hc : Canonic
     | none => exact Good.refl hb hc _
     | some f =>
       simp only
-      exact Good.setManifest hb hc d f (fun m e => ⟨hc s m (e ▸ hm), hi s m (e ▸ hm)⟩)
+      exact Good.setManifest hb hc d f (fun m e => ⟨fun l hl => hc.gd (e ▸ hm) hl, hi s m (e ▸ hm)⟩)
 
-theorem upload_good {env : Env} {st : Store} (hb : BlobsOk env st) (hc : Canonical st) (d : Digest) (c : Bytes) :
+theorem upload_good {env : Env} {st : Store} (hb : BlobsOk env st) (hc : Guard env st) (d : Digest) (c : Bytes) :
     Good env st (upload env st d c).1 [] := by
   unfold upload
   split
   · exact Good.refl hb hc _
   · split <;> exact Good.ofBlobStep (putBlob_step env st c) hb hc _
 
-theorem pruneLayers_blob (st : Store) (k : String) :
-    (pruneLayers st).blob k = if st.referenced ⟨.colon, k⟩ then st.blob k else none := by
+theorem pruneLayers_blob (env : Env) (st : Store) (k : String) :
+    (pruneLayers env st).blob k = if env.inUse st ⟨.colon, k⟩ then st.blob k else none := by
   unfold pruneLayers Store.blob
-  exact aget_filter_key st.blobs (fun k => st.referenced ⟨.colon, k⟩) k
+  exact aget_filter_key st.blobs (fun k => env.inUse st ⟨.colon, k⟩) k
 
-theorem pruneLayers_step (env : Env) {st : Store} (hc : Canonical st) : BlobStep env st (pruneLayers st) := by
+theorem pruneLayers_step (env : Env) {st : Store} (hc : Guard env st) : BlobStep env st (pruneLayers env st) := by
   refine ⟨rfl, fun k => ?_⟩
   rw [pruneLayers_blob]
-  cases hr : st.referenced ⟨.colon, k⟩ with
+  cases hr : env.inUse st ⟨.colon, k⟩ with
   | true => exact Or.inl rfl
   | false =>
     refine Or.inr ⟨Or.inl ?_, by simp⟩
     cases hk : st.keyReferenced k with
     | false => rfl
     | true =>
-      have := hc.referenced_of_key (d := ⟨.colon, k⟩) rfl hk
+      have := inUse_of_key hc (d := ⟨.colon, k⟩) (Or.inr rfl) hk
       rw [hr] at this; cases this
 
-theorem pruneStartup_good {env : Env} {st : Store} (hb : BlobsOk env st) (hc : Canonical st) :
-    Good env st (pruneStartup st).1 [] := by
+theorem pruneStartup_good {env : Env} {st : Store} (hb : BlobsOk env st) (hc : Guard env st) :
+    Good env st (pruneStartup env st).1 [] := by
   unfold pruneStartup
   split
   · exact Good.refl hb hc _
   · exact Good.ofBlobStep (pruneLayers_step env hc) hb hc _
 
-theorem createAt_good {env : Env} (hinj : HashInj env) {st : Store} (hb : BlobsOk env st) (hc : Canonical st)
-    (r : CreateReq) (hf : ∀ d ∈ r.files, d.form = .colon) (name : Name) (frev : Bool) :
-    Good env st (createAt env st r name frev).1 [name] := by
+/-- a create that does not end in the success event only added (correctly named) blobs -/
+theorem createAt_good {env : Env} (hinj : HashInj env) {st : Store} (hb : BlobsOk env st) (hc : Guard env st)
+    (r : CreateReq) (hf : ∀ d ∈ r.files, GD env d) (name : Name) (frev : Bool) :
+    Good env st (createAt env st r name frev).1 [name] ∧
+    ("s" ∉ (createAt env st r name frev).2 → BlobStep env st (createAt env st r name frev).1) := by
   unfold createAt
   simp only
   cases hbl : baseLayers env st r frev with
   | mk ob ev =>
     cases ob with
-    | none => exact Good.refl hb hc _
+    | none => exact ⟨Good.refl hb hc _, fun _ => BlobStep.refl env st⟩
     | some base =>
       simp only
       have w := baseLayers_WL hc hb r hf frev base (by rw [hbl])
@@ -834,41 +925,43 @@ theorem createAt_good {env : Env} (hinj : HashInj env) {st : Store} (hb : BlobsO
           simp only at e1 e2
           cases o with
           | none => cases e2
-          | some err => simp only; rw [e1]; exact g0
+          | some err => simp only; rw [e1]; exact ⟨g0, fun _ => s0⟩
       · rw [e]
         simp only
         have g1 : Good env st0 (setManifest st0 name (.readable m)) [name] :=
           Good.setManifest g0.blobsOk g0.canon name _ (fun m' e' => by injection e' with e''; subst e''; exact ⟨hcm, hcomp⟩)
         have g01 := g0.trans g1
         cases hold : st.readableAt name with
-        | none => exact g01
+        | none => exact ⟨g01, fun h => absurd (by simp) h⟩
         | some mo =>
           simp only
-          have hmo : CanonM mo := hc name mo (readableAt_eq_some.mp hold)
-          exact g01.trans (Good.ofBlobStep (removeLayers_step env mo.all g01.canon hmo) g01.blobsOk g01.canon _)
+          have hmo : ∀ l ∈ mo.all, GD env l.digest := fun l hl => hc.gd (readableAt_eq_some.mp hold) hl
+          exact ⟨g01.trans (Good.ofBlobStep (removeLayers_step env mo.all g01.canon hmo) g01.blobsOk g01.canon _),
+            fun h => absurd (by simp) h⟩
 
 /-- the manifest names an operation may write, after `getExistingName` -/
-def targets (op : Op) (ch : Choice) : List Name :=
+def targets (env : Env) (st : Store) (op : Op) (ch : Choice) : List Name :=
   match op with
-  | .create r => [getExistingName ch.ord1 r.name]
-  | .copy _ d => [getExistingName ch.ord2 d]
-  | .delete n => [getExistingName ch.ord1 n]
+  | .create r => [resolveName env st ch.ord1 r.name]
+  | .copy _ d => [resolveName env st ch.ord2 d]
+  | .delete n => [resolveName env st ch.ord1 n]
   | .plant _ d => [d]
   | .corrupt n => [n]
+  | .dashify n => [n]
   | _ => []
 
 /-! ## manifests are only ever changed at the target name (no guard needed) -/
 
-theorem layerRemove_mans (st : Store) (d : Digest) : (layerRemove st d).mans = st.mans := by
+theorem layerRemove_mans (env : Env) (st : Store) (d : Digest) : (layerRemove env st d).mans = st.mans := by
   unfold layerRemove; split <;> rfl
 
-theorem removeLayers_mans (ls : List Layer) (st : Store) : (removeLayers st ls).mans = st.mans := by
+theorem removeLayers_mans (env : Env) (ls : List Layer) (st : Store) : (removeLayers env st ls).mans = st.mans := by
   induction ls generalizing st with
   | nil => rfl
   | cons l t ih =>
     unfold removeLayers
     simp only [List.foldl]
-    exact (ih (layerRemove st l.digest)).trans (layerRemove_mans st l.digest)
+    exact (ih (layerRemove env st l.digest)).trans (layerRemove_mans env st l.digest)
 
 theorem replaceLayer_mans (env : Env) (st : Store) (ls : List Layer) (media : Media) (c : Bytes) :
     (replaceLayer env st ls media c).1.mans = st.mans := by
@@ -883,7 +976,7 @@ theorem stepTemplate_mans (env : Env) (st : Store) (ls : List Layer) (t : Option
   | some tb =>
     obtain ⟨t, ok⟩ := tb
     cases ok with
-    | false => simp only [stepTemplate, Bool.false_eq_true, if_false]; exact removeLayers_mans _ _
+    | false => simp only [stepTemplate, Bool.false_eq_true, if_false]; exact removeLayers_mans _ _ _
     | true => simp only [stepTemplate, if_true]; exact replaceLayer_mans _ _ _ _ _
 
 theorem stepSystem_mans (env : Env) (st : Store) (ls : List Layer) (s : Option Bytes) :
@@ -958,7 +1051,7 @@ theorem createAt_mans (env : Env) (st : Store) (r : CreateReq) (name : Name) (fr
 
 /-- the manifest of any name other than the (resolved) target is the same file after the operation -/
 theorem step_man_frame (env : Env) (st : Store) (op : Op) (ch : Choice) (n : Name)
-    (hn : n ∉ targets op ch) : (step env st op ch).1.man n = st.man n := by
+    (hn : n ∉ targets env st op ch) : (step env st op ch).1.man n = st.man n := by
   cases op with
   | upload d c =>
     simp only [step, upload]
@@ -968,7 +1061,7 @@ theorem step_man_frame (env : Env) (st : Store) (op : Op) (ch : Choice) (n : Nam
   | create r =>
     simp only [step]
     simp only [targets, List.mem_singleton] at hn
-    rcases createAt_mans env st r (getExistingName ch.ord1 r.name) ch.frev with h | ⟨m, h⟩
+    rcases createAt_mans env st r (resolveName env st ch.ord1 r.name) ch.frev with h | ⟨m, h⟩
     · exact man_congr h n
     · unfold Store.man; rw [h, aget_aset]; simp [hn]
   | copy s d =>
@@ -985,7 +1078,7 @@ theorem step_man_frame (env : Env) (st : Store) (op : Op) (ch : Choice) (n : Nam
     split
     · rfl
     · rfl
-    · rw [man_congr (removeLayers_mans _ _), delManifest_man]; simp [hn]
+    · rw [man_congr (removeLayers_mans _ _ _), delManifest_man]; simp [hn]
   | prune =>
     simp only [step, pruneStartup]
     split <;> rfl
@@ -1001,7 +1094,12 @@ theorem step_man_frame (env : Env) (st : Store) (op : Op) (ch : Choice) (n : Nam
     split
     · rw [setManifest_man]; simp [hn]
     · rfl
-
+  | dashify t =>
+    simp only [step]
+    simp only [targets, List.mem_singleton] at hn
+    split
+    · rw [setManifest_man]; simp [hn]
+    · rfl
 
 /-! ## getExistingName and letter case -/
 
@@ -1109,9 +1207,6 @@ theorem mem_readableNames {st : Store} {a : Name} : a ∈ st.readableNames ↔ R
 /-- no two readable manifests spell a fold-equal part differently -/
 def NoMixed (st : Store) : Prop := MixOk (Readable st)
 
-def Name.equalFold (a b : Name) : Bool :=
-  foldEq a.host b.host && foldEq a.ns b.ns && foldEq a.model b.model && foldEq a.tag b.tag
-
 /-- no two readable (hence no two listed) models differ only by letter case -/
 def NoTwins (st : Store) : Prop := ∀ a b, Readable st a → Readable st b → a.equalFold b = true → a = b
 
@@ -1133,5 +1228,163 @@ def ApiOp : Op → Prop
 /-- the iteration orders are orders of the map `Manifests(true)` returned -/
 def Covers (st : Store) (ch : Choice) : Prop :=
   (∀ e, e ∈ ch.ord1 ↔ Readable st e) ∧ (∀ e, e ∈ ch.ord2 ↔ Readable st e)
+
+/-! ## the repaired getExistingName (F16b) -/
+
+theorem equalFold_iff (a b : Name) : a.equalFold b = true ↔
+    lower a.host = lower b.host ∧ lower a.ns = lower b.ns ∧ lower a.model = lower b.model ∧
+    lower a.tag = lower b.tag := by
+  simp only [Name.equalFold, Bool.and_eq_true, foldEq_iff]
+  constructor
+  · rintro ⟨⟨⟨h1, h2⟩, h3⟩, h4⟩; exact ⟨h1, h2, h3, h4⟩
+  · rintro ⟨h1, h2, h3, h4⟩; exact ⟨⟨⟨h1, h2⟩, h3⟩, h4⟩
+
+theorem equalFold_symm {a b : Name} (h : a.equalFold b = true) : b.equalFold a = true := by
+  rw [equalFold_iff] at h ⊢
+  exact ⟨h.1.symm, h.2.1.symm, h.2.2.1.symm, h.2.2.2.symm⟩
+
+theorem equalFold_trans {a b c : Name} (h1 : a.equalFold b = true) (h2 : b.equalFold c = true) :
+    a.equalFold c = true := by
+  rw [equalFold_iff] at h1 h2 ⊢
+  exact ⟨h1.1.trans h2.1, h1.2.1.trans h2.2.1, h1.2.2.1.trans h2.2.2.1, h1.2.2.2.trans h2.2.2.2⟩
+
+theorem mem_insertName (x y : Name) (l : List Name) : x ∈ insertName y l ↔ x = y ∨ x ∈ l := by
+  induction l with
+  | nil => simp [insertName]
+  | cons z t ih =>
+    simp only [insertName]
+    split
+    · simp
+    · simp only [List.mem_cons, ih]
+      constructor
+      · rintro (h | h | h)
+        · exact Or.inr (Or.inl h)
+        · exact Or.inl h
+        · exact Or.inr (Or.inr h)
+      · rintro (h | h | h)
+        · exact Or.inr (Or.inl h)
+        · exact Or.inl h
+        · exact Or.inr (Or.inr h)
+
+theorem mem_sortNames (x : Name) (l : List Name) : x ∈ sortNames l ↔ x ∈ l := by
+  induction l with
+  | nil => simp [sortNames]
+  | cons y t ih =>
+    simp only [sortNames, List.foldr_cons, List.mem_cons] at ih ⊢
+    rw [mem_insertName, ih]
+
+theorem firstPart_lower (f : Name → String) (es : List Name) (x : String) :
+    lower (firstPart f es x) = lower x := by
+  unfold firstPart
+  split
+  · rename_i e he
+    have := List.find?_some he
+    exact (foldEq_iff _ _).mp this
+  · rfl
+
+/-- the repaired `getExistingName` returns an existing name, or a name no existing one is fold-equal to -/
+theorem getExistingNameFixed_spec (es : List Name) (n : Name) :
+    getExistingNameFixed es n ∈ es ∨
+    ((∀ e ∈ es, e.equalFold n = false) ∧ (getExistingNameFixed es n).equalFold n = true) := by
+  unfold getExistingNameFixed
+  split
+  · rename_i h
+    exact Or.inl (by simpa using h)
+  · simp only
+    split
+    · rename_i e he
+      exact Or.inl ((mem_sortNames e es).mp (List.mem_of_find?_eq_some he))
+    · rename_i hnone
+      refine Or.inr ⟨?_, ?_⟩
+      · intro e he
+        have := List.find?_eq_none.mp hnone e ((mem_sortNames e es).mpr he)
+        simpa using this
+      · rw [equalFold_iff]
+        exact ⟨firstPart_lower _ _ _, firstPart_lower _ _ _, firstPart_lower _ _ _, firstPart_lower _ _ _⟩
+
+/-! ## events of a create request with N1 repaired -/
+
+theorem fileLayers_err {env : Env} {st : Store} (ds : List Digest) (e : String)
+    (h : fileLayers env st ds = .error e) : e ≠ "s" := by
+  induction ds with
+  | nil => simp [fileLayers] at h
+  | cons d t ih =>
+    simp only [fileLayers] at h
+    split at h
+    · injection h with h; subst h; decide
+    · split at h
+      · injection h with h; subst h; decide
+      · split at h
+        · rename_i e' he'
+          injection h with h; subst h
+          exact ih he'
+        · cases h
+
+/-- with N1 repaired, base layers come without any error event; without base layers there is no success -/
+theorem baseLayers_events {env : Env} (hv : env.v.fixReturn = true) (st : Store) (r : CreateReq) (frev : Bool) :
+    ((baseLayers env st r frev).1.isSome = true → (baseLayers env st r frev).2 = []) ∧
+    ((baseLayers env st r frev).1 = none → "s" ∉ (baseLayers env st r frev).2) := by
+  unfold baseLayers
+  simp only [hv, if_true]
+  cases r.src with
+  | some f =>
+    simp only
+    cases st.readableAt f with
+    | none => simp
+    | some m =>
+      simp only
+      cases fromLayers env st m.layers with
+      | none => simp
+      | some b => simp
+  | none =>
+    simp only
+    split
+    · simp
+    · cases hfl : fileLayers env st (if frev = true then r.files.reverse else r.files) with
+      | error e =>
+        simp only
+        refine ⟨by simp, fun _ => ?_⟩
+        simp only [List.mem_singleton]
+        exact fun h => fileLayers_err _ e hfl h.symm
+      | ok b => simp
+
+theorem createModel_err {env : Env} {st : Store} {name : Name} {base : List (Layer × Option Meta)}
+    {r : CreateReq} {e : String} (h : (createModel env st name base r).2 = some e) : e ≠ "s" := by
+  unfold createModel at h
+  simp only at h
+  split at h
+  · injection h with h; subst h; decide
+  · split at h
+    · injection h with h; subst h; decide
+    · cases h
+
+/-- **N1 repaired**: a create either reports exactly the success event, or no success event at all -/
+theorem createAt_events_fixed {env : Env} (hv : env.v.fixReturn = true) (st : Store) (r : CreateReq)
+    (name : Name) (frev : Bool) :
+    (createAt env st r name frev).2 = ["s"] ∨ "s" ∉ (createAt env st r name frev).2 := by
+  obtain ⟨h1, h2⟩ := baseLayers_events hv st r frev
+  unfold createAt
+  simp only
+  cases hbl : baseLayers env st r frev with
+  | mk ob ev =>
+    rw [hbl] at h1 h2
+    simp only at h1 h2
+    cases ob with
+    | none => exact Or.inr (h2 rfl)
+    | some base =>
+      simp only
+      have hev : ev = [] := h1 rfl
+      subst hev
+      cases hcm : createModel env st name base r with
+      | mk st1 o =>
+        cases o with
+        | some err =>
+          simp only
+          refine Or.inr ?_
+          simp only [List.nil_append, List.mem_singleton]
+          exact fun h => createModel_err (by rw [hcm]) h.symm
+        | none =>
+          simp only
+          cases st.readableAt name <;> exact Or.inl rfl
 
 end OllamaVerif.Store
